@@ -546,3 +546,20 @@ pub fn get_moves_frame_contract() {
     assert!(unsafe { fblk::BALANCE == 0 && !fblk::BAD }, "C03: get_moves left a move played");
     vcover!(verify_king, "checked mode reachable");
 }
+
+/// C15, king generation on ANY board the FEN reader can produce: no WF6 here (the reader takes the
+/// castling field at face value, so a right may be held by a king that is not on e1/e8) -- only the
+/// engine's own safety obligations are checked: every square computed stays on the board, every unchecked
+/// index is in range (Position debug assertions, Kani's pointer checks).
+#[cfg(kani)]
+pub fn gen_king_safety(sq: usize) {
+    let mut g = mk::sym_game_nocache(0);
+    g.board[sq] = Some(Piece { piece_type: PieceType::King, owner: g.current_player });
+    let v = adapt::view_of(&g);
+    nd::assume(v.ep <= 8);
+    let oracle: [bool; 64] = mk::sym_bools64();
+    unsafe { ATT_ORACLE = oracle; ATT_WRONG_PLAYER = false; }
+    let mut n: u8 = 0;
+    g.board[sq].unwrap().get_moves(|_m| { if n < 200 { n += 1; } }, &g, mk::pos_of(sq));
+    vcover!(n >= 1, "a king move reachable");
+}
